@@ -85,8 +85,25 @@ def run(ctx):
     def th_gen(it):
         del sets[:]
         del created[:]
-        it.ext_hooks['xml.etree.ElementTree.Element'] = lambda it2, a, k: mk_el('ROOT:' + a[0])
-        it.ext_hooks['xml.etree.ElementTree.SubElement'] = lambda it2, a, k: (created.append((a[0], a[1])) or mk_el(a[1]))
+        def initial(tag, attrib, extra):
+            # Element(tag, attrib={}, **extra) / SubElement(parent, tag, attrib={}, **extra): attributes given at creation
+            for src in (attrib, extra):
+                if isinstance(src, dict):
+                    for k_, v_ in src.items():
+                        if k_ != 'attrib':
+                            sets.append((tag, k_, v_))
+
+        def new_root(it2, a, k):
+            tag = 'ROOT:' + a[0]
+            initial(tag, a[1] if len(a) > 1 else k.get('attrib'), k)
+            return mk_el(tag)
+
+        def new_sub(it2, a, k):
+            created.append((a[0], a[1]))
+            initial(a[1], a[2] if len(a) > 2 else k.get('attrib'), k)
+            return mk_el(a[1])
+        it.ext_hooks['xml.etree.ElementTree.Element'] = new_root
+        it.ext_hooks['xml.etree.ElementTree.SubElement'] = new_sub
         it.ext_hooks['xml.etree.ElementTree.ElementTree'] = lambda it2, a, k: 'TREE'
         doc = it.new_obj('svg_io_sax.SaxDocument')
         doc.attrs['root_values'] = {'width': '10', 'height': '20', 'viewBox': '0 0 1 1'}
